@@ -3,7 +3,7 @@
 Require Import Parser Render Api Shape.
 Require Lex.
 Require Import ParserTotal ParserShape2 RenderTotal RenderWfOk RenderInline RenderParamTotal RenderMarshal.
-Require LexFuel LexProof Cost.
+Require LexFuel LexProof Cost TreeSize ParserShape LexWs SqlQueryText.
 
 From Coq Require Import List String.
 Import ListNotations.
@@ -65,6 +65,20 @@ Theorem C01_parse_steps_linear : forall (o : oracle) (cl : Lex.classes) (df s : 
   Api.parse o cl df s = match run o (4 * String.length s + 8) df c0 with PTree e => if validate e then PTree e else PErr | r => r end.
 Proof. exact Cost.parse_steps_linear. Qed.
 
+(* ... and the tree Parse returns has at most 6|s|+3 nodes (ParserShape.esize counts expression, list and range-boundary
+   nodes): every accepted tree is a derivation over its tokens (C06), a derivation over n tokens builds at most 6n-5 nodes.
+   So whatever walks the tree once - Validate, String(), %#v, both renderers, the encoder - does linear work in these units. *)
+Theorem C01_parse_tree_linear : forall (o : oracle) (cl : Lex.classes) (df s : string) (e : expr),
+  Api.parse o cl df s = PTree e -> ParserShape.esize e <= 6 * String.length s + 3.
+Proof. exact TreeSize.parse_tree_linear. Qed.
+
+(* the bounds are not vacuous: a query of 11 bytes, 6 tokens + EOF, a tree of 11 nodes under a default field *)
+Example c01_cost_example :
+  let s := "a b OR c:d*"%string in
+  List.length (Api.lex_tokens LexWs.cl_ascii s) = 7 /\
+  exists e, Api.parse SqlQueryText.o_ex LexWs.cl_ascii "t" s = PTree e /\ ParserShape.esize e = 11.
+Proof. vm_compute. split; [reflexivity|eexists; split; reflexivity]. Qed.
+
 Print Assumptions C01_parse_total.
 Print Assumptions C01_lexer_terminates.
 Print Assumptions C01_renderers_total.
@@ -73,3 +87,4 @@ Print Assumptions C01_to_param_postgres_total.
 Print Assumptions C01_no_format_error.
 Print Assumptions C01_tokens_linear.
 Print Assumptions C01_parse_steps_linear.
+Print Assumptions C01_parse_tree_linear.
